@@ -1,6 +1,7 @@
 //! Verification harness: drives the real crates from /repo and writes ndjson traces that the
 //! TLA+ trace specifications in /verif/spec judge.  Rust only drives and projects; no verdicts.
 mod bq;
+mod utf8;
 mod util;
 
 fn main() {
@@ -14,6 +15,8 @@ fn main() {
     let args = util::Args(argv[2..].to_vec());
     match argv[1].as_str() {
         "bq" => bq::main(&args),
+        "utf8" => utf8::main_utf8(&args),
+        "enc" => utf8::main_enc(&args),
         x => {
             eprintln!("unknown subcommand {}", x);
             std::process::exit(2);
